@@ -189,6 +189,7 @@ fn gen_cap(g: &mut Xo, regime: u64) -> usize {
         0 => g.urange(0, 3),
         1 => g.urange(4, 12),
         2 => 64,
+        4 => g.log_uniform(13, 1500),
         _ => usize::MAX,
     }
 }
@@ -247,6 +248,8 @@ pub fn gen_scenario(g: &mut Xo, bias: Bias) -> VmSc {
 
     // --- capacities
     let regime = match bias {
+        // (regime 4: capacities of arbitrary magnitude, 13..=1500, in 1/25 of the runs)
+        _ if g.chance(1, 25) => 4,
         Bias::Balanced => g.below(4),
         Bias::Growth => g.below(3),
     };
@@ -274,7 +277,15 @@ pub fn gen_scenario(g: &mut Xo, bias: Bias) -> VmSc {
         // (slack 0..2 so that "exec exactly full at the start" occurs)
         caps.exec = program.len() + g.urange(0, 2);
     }
-    let fill = |g: &mut Xo, cap: usize| -> usize { g.urange(0, 8).min(cap) };
+    // initial stack heights: mostly 0..=8; sometimes anywhere up to the capacity (<= 600), sometimes exactly full
+    let fill = |g: &mut Xo, cap: usize| -> usize {
+        if cap > 8 && g.chance(1, 12) {
+            let top = cap.min(600);
+            if g.chance(1, 4) { top } else { g.log_uniform(9, top.max(9)).min(cap) }
+        } else {
+            g.urange(0, 8).min(cap)
+        }
+    };
     let n_int = if g.chance(1, 4) { caps.int.min(8) } else { fill(g, caps.int) };
     let n_float = fill(g, caps.float);
     let n_bool = if g.chance(1, 4) { caps.bool.min(8) } else { fill(g, caps.bool) };
